@@ -23,6 +23,7 @@ objects so they can be GCed
 import (
 	"fmt"
 	"os"
+	"reflect"
 	"runtime/debug"
 	"strings"
 
@@ -1068,9 +1069,9 @@ func do_COMPARE_OP(vm *Vm, opname int32) error {
 		in, err = py.SequenceContains(b, a)
 		r = py.NewBool(!in)
 	case PyCmp_IS:
-		r = py.NewBool(a == b)
+		r = py.NewBool(objectIs(a, b))
 	case PyCmp_IS_NOT:
-		r = py.NewBool(a != b)
+		r = py.NewBool(!objectIs(a, b))
 	case PyCmp_EXC_MATCH:
 		if bTuple, ok := b.(py.Tuple); ok {
 			for _, exc := range bTuple {
@@ -1974,6 +1975,29 @@ fast_yield:
 		return vm.retval, vm.curexc
 	}
 	return vm.retval, nil
+}
+
+// objectIs implements the identity test of 'is'.  Go's == panics on
+// interface values holding maps or slices (dict, tuple, bytes), so those
+// are compared by the address of their storage.
+func objectIs(a, b py.Object) bool {
+	va, vb := reflect.ValueOf(a), reflect.ValueOf(b)
+	if !va.IsValid() || !vb.IsValid() {
+		return !va.IsValid() && !vb.IsValid()
+	}
+	if va.Type() != vb.Type() {
+		return false
+	}
+	switch va.Kind() {
+	case reflect.Map:
+		return va.Pointer() == vb.Pointer()
+	case reflect.Slice:
+		return va.Pointer() == vb.Pointer() && va.Len() == vb.Len()
+	}
+	if !va.Type().Comparable() {
+		return false
+	}
+	return a == b
 }
 
 // Chooses trueString if flag is true, falseString otherwise
